@@ -72,7 +72,9 @@ theorem loadStep_err (s : LoadSt) (line : Str) (e : LoadErr) (h : loadStep s lin
     · exact loadCommon_err _ _ _ h
   · simp only at h
     split at h
-    · cases h
+    · split at h
+      · cases h; exact Or.inl rfl
+      · cases h
     · exact loadCommon_err _ _ _ h
   · simp only at h
     split at h
